@@ -503,6 +503,8 @@ def run(F, rep, tier):
     obligations(F, rep)
     import c02
     c02.copy_structure(F, rep)
+    # a parameter (or mutable variable) of function type has one type: `f(1)` then `f("a")` is a mismatch
+    c02.copy_discipline(F, rep, only_generalised=True)
     unification_core(F, rep)
     pairing(F, rep)
     declared_types_known(F, rep)
